@@ -2,7 +2,7 @@
    decodes literals exactly).  Statements closed by [exact lemma], non-vacuity
    examples, Print Assumptions. *)
 From RJ Require Import Base.Outcome Model.Token Model.Utf8 Model.Lexer
-  Proofs.Utf8_proofs Proofs.Lexer_proofs Gen.LexTables.
+  Proofs.Utf8_proofs Proofs.Lexer_proofs Proofs.Lexer_values_proofs Gen.LexTables.
 From Coq Require Import Lia.
 Local Open Scope N_scope.
 
@@ -131,8 +131,44 @@ Theorem C14_number_value_partial : forall len start b0 c t c',
             (i64_min <= num_exp n <= i64_max)%Z.
 Proof. exact number_shape. Qed.
 
-(* NOT proved (see notes/C14.md): the text-block and number value statements.
-   Covered by K and by the generator-known-value oracle of the check. *)
+(* text blocks: for EVERY input, the scanner's answer is that of the line-based
+   transcription of the grammar (textblock_spec, on the lines of the lossy
+   decoding of what follows the opening pipes):
+   - header: optional '-', then only blanks / CR up to the first newline, else
+     MissingLineBreakAfterTextBlockStart;
+   - leading blank lines ("" or CR, followed by a newline) contribute the line and
+     its newline — so a CRLF blank line contributes CR LF, as the code does;
+   - the first other line must start with blanks (else MissingWhitespaceTextBlockStart):
+     they are the prefix, the rest of the line and its newline are content;
+   - then each line: blank line ("" or CR) -> the line and its newline; a line
+     starting with the prefix -> the rest of the line and its newline
+     (UnfinishedString if the input ends inside it); any other line must be
+     blanks* then three pipes (else InvalidTextBlockTermination), and what follows
+     them remains to be lexed;
+   - with '-', exactly the final newline is dropped.
+   Success and each error kind are characterised exactly (both directions, since
+   the lexer always answers Ok or Err). *)
+Theorem C14_textblock_value : forall len start c, bytes_ok (rest c) ->
+  match lex_text_block len start c with
+  | Ok (t, c') => exists s, tok_kind t = TTextBlock s /\
+                            textblock_spec (lossy (rest c)) = Ok (s, lossy (rest c'))
+  | Err e => textblock_spec (lossy (rest c)) = Err (err_kind e)
+  | _ => True
+  end.
+Proof. exact textblock_value. Qed.
+
+(* the specification on concrete blocks: CRLF blank lines keep their CR, extra
+   indentation is kept, '-' drops one newline, the four error kinds *)
+Example C14_textblock_spec_examples :
+  textblock_spec ([10] ++ bytes_of_string "  a" ++ [13; 10; 13; 10; 10] ++ bytes_of_string "   b" ++ [10] ++ bytes_of_string " |||x")
+    = Ok (bytes_of_string "a" ++ [13; 10; 13; 10; 10] ++ bytes_of_string " b" ++ [10], bytes_of_string "x") /\
+  textblock_spec (bytes_of_string "- " ++ [13; 10; 13; 10; 9] ++ bytes_of_string "a" ++ [10] ++ bytes_of_string "|||")
+    = Ok ([13; 10] ++ bytes_of_string "a", []) /\
+  textblock_spec (bytes_of_string " x") = Err EMissingLineBreakAfterTextBlockStart /\
+  textblock_spec ([10] ++ bytes_of_string "a" ++ [10] ++ bytes_of_string "|||") = Err EMissingWhitespaceTextBlockStart /\
+  textblock_spec ([10] ++ bytes_of_string " a" ++ [10] ++ bytes_of_string "b") = Err EInvalidTextBlockTermination /\
+  textblock_spec ([10] ++ bytes_of_string " a" ++ [10] ++ bytes_of_string " b") = Err EUnfinishedString.
+Proof. vm_compute. repeat split. Qed.
 
 Example C14_quoted_spec_example :
   quoted_spec 40 39 (bytes_of_string "a\n\u00e9\uD83D\uDE00\'b' x") = Some ([97; 10; 233; 128512; 39; 98], [32; 120]).
@@ -174,6 +210,8 @@ Print Assumptions C14_verbatim_string_value.
 Print Assumptions C14_surrogate_pairs.
 Print Assumptions C14_surrogate_pairs_onto.
 Print Assumptions C14_quoted_string_value.
+Print Assumptions C14_textblock_value.
+Print Assumptions C14_textblock_spec_examples.
 Print Assumptions C14_number_value_partial.
 Print Assumptions C14_quoted_spec_example.
 Print Assumptions C14_nonvacuous.
